@@ -71,7 +71,7 @@ func main() {
 		r.Require(k, 1)
 	}
 	r.Require("stream:max-length", 1)
-	r.Assume("allocation allowance for L payload bytes is header + L + 256·L + 64 KiB (decoded representation of bytes that are present); only allocation driven by declared counts/lengths can exceed it")
+	r.Assume("'allocates' is measured as bytes obtained in large objects (> 32 KiB: one make/growslice sized by a count) during one ReadMessage; allowance for L payload bytes = header + L + 256·L + 64 KiB; the small-object garbage of honest work on bytes that are present (big.Int arithmetic of public-key decompression) is not counted; for the rejected-before-the-buffer clause (wrong magic, oversized length) the total is measured instead and must stay ≤ 4 KiB")
 	r.Assume("domain notes (documented decoder leniencies, checked with a weaker clause and counted as exempt:*): addr/inv clamp to 64 entries; version without/with unreadable SoftVersion; block body that ends before MerkleRoot‖hasCCMsg or has an unreadable flag (\"to accept old node's block\")")
 	r.Assume("'reproduces the payload' is read as: re-serialization equals the prefix of the payload the type's decoder consumed (trailing bytes are ignored by ReadMessage by design)")
 	r.Assume("getmembers timestamps are drawn from year 2097+ so the decoder's wall-clock expiry check never decides a verdict")
